@@ -50,6 +50,9 @@ func c16IntToFloatExact(r *Run) {
 			if b, ok := cv.Type().Underlying().(*types.Basic); !ok || b.Info()&types.IsFloat == 0 {
 				return
 			}
+			if sb, ok := cv.X.Type().Underlying().(*types.Basic); ok && e.is32() && (sb.Kind() == types.Int || sb.Kind() == types.Uint || sb.Kind() == types.Uintptr) {
+				return // int is 32 bits wide on this target: every value is exactly representable
+			}
 			n++
 			v := c.lin(cv.X)
 			b, idx := cv.Block(), blockIndexOf(cv)
